@@ -39,6 +39,13 @@ package rlp
 //@   ghost k int
 //@   ensures[C46] err == nil && 0 <= k && k < sz ==> str[k] == inp[ds + k]
 
+// The payload of a list is a sequence of items that tile it exactly: recursive predicate over the item boundaries
+// (rlp_next(i) = end of the item that starts at i). Termination: every item is at least one byte long
+// (rlp_ds + rlp_sz > i whenever the header is canonical), so e - i decreases; the recursion is only entered for i < e.
+//@ spec rlp_next(inp, i) = rlp_ds(inp, i) + rlp_sz(inp, i)
+//@ spec rlp_item_fits(inp, i) = rlp_hdr_ok(inp, i) && rlp_sz(inp, i) <= len(inp) - rlp_ds(inp, i) && rlp_next(inp, i) > i
+//@ recfun rlp_items_ok(inp []byte, i int, e int) bool = ite(i >= e, i == e, rlp_item_fits(inp, i) && rlp_items_ok(inp, rlp_next(inp, i), e))
+//@ recfun rlp_items_n(inp []byte, i int, e int) int = ite(i >= e || !rlp_item_fits(inp, i), 0, 1 + rlp_items_n(inp, rlp_next(inp, i), e))
 //@ func DecodeList
 //@   mode bv
 //@   requires startIndex >= 0
@@ -46,3 +53,17 @@ package rlp
 //@   loop 1 invariant dataStartIndex <= itemStartIndex && itemStartIndex <= len(inp) && dataBytesRead == itemStartIndex - dataStartIndex && (dataBytesRead > 0 ==> itemEndIndex == itemStartIndex)
 //@   ensures[C46] err == nil ==> rlp_hdr_ok(inp, startIndex) && !rlp_isstr(inp, startIndex)
 //@   ensures[C46] err == nil ==> bytesRead == rlp_ds(inp, startIndex) + rlp_sz(inp, startIndex) - startIndex && rlp_sz(inp, startIndex) <= len(inp) - rlp_ds(inp, startIndex)
+// accepted exactly when the header is a canonical list header and the payload is a sequence of canonical items that
+// tile it exactly; the result has one entry per item
+//@   let lds = rlp_ds(inp, startIndex)
+//@   let lsz = rlp_sz(inp, startIndex)
+//@   option split=1
+//@   option timeout=240
+//@   option solvers=cvc5,z3-new,z3
+//@   ensures[C46] err == nil ==> lsz == 0 || rlp_items_ok(inp, lds, lds + lsz)
+//@   ensures[C46] rlp_hdr_ok(inp, startIndex) && !rlp_isstr(inp, startIndex) && (lsz == 0 || (lsz <= len(inp) - lds && rlp_items_ok(inp, lds, lds + lsz))) ==> err == nil
+//@   ensures[C46] err == nil ==> len(encodedItems) == ite(lsz == 0, 0, rlp_items_n(inp, lds, lds + lsz))
+//@   loop 1 invariant listDataSize > 0 && listDataSize <= len(inp) - dataStartIndex && dataStartIndex == rlp_ds(inp, startIndex) && listDataSize == rlp_sz(inp, startIndex)
+//@   loop 1 invariant iff(rlp_items_ok(inp, dataStartIndex, dataStartIndex + listDataSize), rlp_items_ok(inp, itemStartIndex, dataStartIndex + listDataSize))
+//@   loop 1 invariant rlp_items_n(inp, dataStartIndex, dataStartIndex + listDataSize) == len(retList) + rlp_items_n(inp, itemStartIndex, dataStartIndex + listDataSize)
+
